@@ -440,13 +440,13 @@ def run(ctx, drv):
             check(ctx, drv, [kind], [[w, leaf(3), witness_r2_2()]], None, "witness")
             check(ctx, None, [kind], [[strip(w)]], None, "witness", instr="none")
     # NS: sequential nested programs, private yield points + model, and on the plain objects
-    for i in range(140 if quick else 1500):
+    for i in range(140 if quick else 1000):
         if ctx.time_left() < 60:
             break
         kinds, programs = rand_case(rng, 1, rng.choice([1, 2, 2, 3]))
         check(ctx, drv, kinds, programs, None, "sequential", instr="private" if i % 3 else "none")
     # NT: 2-3 threads, random schedules over the private yield points and the nested call sites
-    for i in range(110 if quick else 1500):
+    for i in range(110 if quick else 1000):
         if ctx.time_left() < 60:
             break
         kinds, programs = rand_case(rng, rng.choice([2, 2, 3]), rng.choice([1, 1, 2]))
